@@ -326,6 +326,18 @@ func resolveComputedFields(env *Environment, errorSink *validation.ErrorSink) *E
 					return t
 				}
 
+				if d.Dimensions == nil {
+					// The number of dimensions is not known
+					if len(t.Arguments) == 0 {
+						errorSink.Add(validationError(t, "array index must have at least one argument"))
+						return t
+					}
+					if labeledCount > 0 {
+						errorSink.Add(validationError(t, "array index arguments cannot be labeled because the array has no named dimensions"))
+						return t
+					}
+				}
+
 				if d.Dimensions != nil {
 					if len(t.Arguments) < len(*d.Dimensions) {
 						errorSink.Add(validationError(t, "array index must provide arguments for all %d dimensions", len(*d.Dimensions)))
